@@ -867,7 +867,12 @@ def compare_result(D, op, res, ref, out_t, args, arrays, extra, kw):
         if got is None or got.shape != ref.shape or not np.array_equal(got, ref):
             return ("wrong-entries", "matmul(l, r, scale, out) returned something else than "
                                      "out + scale*l@r")
-        if not np.array_equal(args[2].to_array(), ref):
+        # matmul_dag_dense has no documented in-place contract (with an `out`
+        # of the other memory order it returns result + out in a new matrix
+        # and leaves `out` alone); the kernels documented as "out := ..." must
+        # update the caller's matrix
+        documented = not (op.name == "matmul_dag[out]" and isinstance(args[1], D.Dense))
+        if documented and not np.array_equal(args[2].to_array(), ref):
             return ("out-not-updated", "the caller's `out` does not hold the result")
         return None
     if op.scalar:
